@@ -68,6 +68,12 @@ CHECKS = {
         design="§7 C17",
         note="Unforgeability (q-SDH / PS assumption) is assumed. Hash-derived values (BBS e, generators; PS m', sigma_1) are arbitrary in the theorems and pseudo-logs in executed cases.",
         technique="Coq theorems (field/ring + list induction; explicit extractors) + differential correspondence at the signature-suite API"),
+    "C15": dict(
+        text="Theorems for every schema, claim vector and registry state: sign_credential returns Ok exactly when the vector has the schema's length, every claim has the declared type and every declared validator evaluates to Some true on it (an inapplicable validator refuses), it contains exactly one revocation claim and that identifier is not revoked; then it records exactly that identifier; it never panics; validator semantics (inclusive bounds, defaults); CredentialSchema::new succeeds iff labels non-empty, duplicate-free and containing every blindable label; returned signature and handle valid (C17/C13 theorems). "
+             "Correspondence: 4000 (thorough 40000) generated (schema, vector, state) cases incl. every mutation class + 240 schema constructions, BBS and PS, decision compared with the Coq function and returned credentials verified on the implementation.",
+        design="§7 C15",
+        note="regex matching / UTF-8 validity are arbitrary functions in the theorems; executed cases take the regex answers from the regex crate evaluated independently by the harness.",
+        technique="Coq theorems (decision function = specification, by induction over the claim/schema lists) + differential correspondence"),
 }
 
 PLANNED = {
